@@ -51,6 +51,16 @@ def getattr_(I, obj, name):
                 return AbstractMethod(obj, name, ty.methods[name])
             if name == "__class__":
                 return I.B.AbsClass(obj)
+            if getattr(ty, "open_attrs", False):
+                # an arbitrary Python object: reading an attribute either fails (AttributeError) or yields attr_of(object, name)
+                ctx.ghost["nondet"] = True
+                if ctx.choose(2, "getattr(%s)" % name) == 1:
+                    raise _attr_error(I, obj, name)
+                t = Z.attr_of(obj.t, z3.StringVal(name))
+                ctx.assume(z3.And(Z.is_refv(t), Z.Val.id(t) > 0, Z.Val.id(t) < ctx.alloc0))
+                sv = SV(t, ty)
+                ctx.assume_class(t, ty)
+                return sv
             raise Unsupported("abstract %s has no declared member %s" % (ty.name, name))
         if isinstance(ty, (TSeq, TMap)):
             return SeqMethod(obj, name)
@@ -71,6 +81,9 @@ def getattr_(I, obj, name):
             raise _attr_error(I, obj, name)
         return I.materialise(r)
     if isinstance(obj, ExternalRef):
+        h = I.E.externals.get("value:%s.%s" % (obj.dotted, name))
+        if h is not None:
+            return h(I)
         return ExternalRef(obj.dotted + "." + name)
     if isinstance(obj, Closure):
         if name in obj.attrs:
